@@ -20,7 +20,7 @@
 (* TLC integers are 32 bit: sizes saturate at Sat, values are bit          *)
 (* sequences, never numbers.                                               *)
 (***************************************************************************)
-EXTENDS Integers, Sequences, FiniteSets, SequencesExt, Folds
+EXTENDS Integers, Sequences, FiniteSets, SequencesExt, Folds, TLC
 
 (***************************************************************************)
 (* TLC evaluates operator ARGUMENTS lazily and does not cache them when    *)
@@ -35,7 +35,12 @@ EXTENDS Integers, Sequences, FiniteSets, SequencesExt, Folds
 (*  - an operator that uses a parameter inside a constructor or quantifier *)
 (*    binds it with With first.                                            *)
 (***************************************************************************)
-With(x, F(_)) == CHOOSE r \in {F(y) : y \in {x}} : TRUE
+With(x, F(_)) == CHOOSE r \in {TLCEval(F(y)) : y \in {TLCEval(x)}} : TRUE
+
+(* A function constructor is a lazy closure in TLC (re-evaluated on every  *)
+(* application); Eager forces it into an explicit function/tuple.  Every   *)
+(* constructor whose result is handed on is wrapped.                       *)
+Eager(f) == TLCEval(f)
 
 Sat == 536870912   \* 2^29, "too large" marker for saturating arithmetic
 
